@@ -47,8 +47,8 @@ var fastPaths = []fastPath{
 		"span end from a leftmost-longest forward DFA: .*?error.*? on 'an error here error'"},
 	{"ReverseInner whole-haystack span", []string{"meta.isUniversalMatch", "meta.endsWithUniversalMatch", "meta.isDotAllStar", "meta.isLiteralThenDotAllStar"}, []string{"DotNL"},
 		"returns [start, len(haystack)] without a scan: right for (?s).*lit(?s).*, wrong for .*lit.* on x\\nlit\\ny"},
-	{"MultilineReverseSuffix", []string{"meta.isSafeForMultilineReverseSuffix"}, []string{"NonGreedy"},
-		"span end chosen as the suffix occurrence reached by a greedy line scan"},
+	{"MultilineReverseSuffix fast path", []string{"meta.multilineLiteralDotStarLiteral"}, []string{"NonGreedy", "FoldCase", "DotNL"},
+		"answers [line start, last suffix on the line] without an automaton: exact only for a greedy default-dot star between two case-sensitive literals (the strategy's other patterns are answered by the anchored forward DFA of the whole pattern, which needs no datum)"},
 }
 
 type funcFacts struct {
